@@ -22,12 +22,43 @@ ENGINES = {
     ),
 }
 
+ENGINES["range"] = dict(
+    drv="range", starts=("rsetup",),
+    trivial=r"^(rsetup .* => ok$)",
+    branches=["rsetup.ok", "rsetup.err", "rreq.new", "rreq.known", "rreq.exhausted", "rreq.maclen-other", "rrestart.ok"],
+)
+ENGINES["prefix"] = dict(
+    drv="prefix", starts=("psetup",),
+    trivial=r"^(psetup .* ok$)",
+    branches=["psetup.ok", "psetup.err", "pmsg.reply", "pmsg.drop", "pmsg.hintless", "pmsg.hint-len0", "pmsg.hint-len>128",
+              "pmsg.multi-hint", "pmsg.multi-iapd", "pmsg.no-client-id", "pmsg.noprefixavail", "pmsg.new-lease", "pmsg.known-lease"],
+)
+
 TB_BITSET = "github.com/bits-and-blooms/bitset (New/Test/Set/Clear/NextClear) modelled as List Bool, not verified"
 TB_STD = "Go stdlib net/bytes/encoding/binary/math/bits taken at their documented Nat-level meaning"
 
 ALLOC_THEOREMS = lambda k: ["%s_alloc6" % k, "%s_alloc4" % k]
 
+TB_SQLITE = "sqlite3 (mattn/go-sqlite3) modelled as a table keyed (mac, ip); the stored form of a hardware address (HardwareAddr.String, column affinity, the loader's parser) is a parameter assumed to round-trip, exercised by every restart of the conformance run"
+TB_CLOCK = "the wall clock is a parameter of the model; the conformance run brackets each call with the times measured around it"
+
 PROPS = {
+    "C02": dict(
+        engines=[("range", 2500, 40000)],
+        theorems=["C02_holds", "C02_progress"],
+        modules=["CoreDhcp.Props.C02"],
+        trusted_base=[TB_BITSET, TB_SQLITE, TB_CLOCK],
+        assumptions=["Handler4 is one atomic step (PluginState mutex held by defer for the whole call; fact F1)",
+                     "sequential histories; concurrent schedules reduce to them by F1 (see C16)"],
+    ),
+    "C03": dict(
+        engines=[("range", 2500, 40000)],
+        theorems=["C03_holds", "C03_restore", "C03_D7_prefix_refuted"],
+        modules=["CoreDhcp.Props.C03"],
+        trusted_base=[TB_BITSET, TB_SQLITE, TB_CLOCK],
+        assumptions=["a crash point is a point between two requests (the database file is copied there and the plugin started on the copy)",
+                     "sqlite durability itself is not modelled"],
+    ),
     "C20": dict(
         engines=[("ipcalc", 20000, 300000)],
         theorems=["C20_offset_exact", "C20_offset_symm", "C20_addPrefixes_exact", "C20_inverse",
